@@ -45,6 +45,15 @@ CATALOGUE = {
     'calculate_jacobians': (SHELL, [{}]),
     'calculate_frame_tensor_adjs': (ALL, [{}, {'mode': 'nodal'}]),
     'convert_nodal2elemental': (ALL, [{'data': 'u', 'calc_average': True}, {'data': 'NODE', 'calc_average': True}]),
+    'convert_elemental2nodal': (ALL, [{'elemental_data': {'$elemental': 'w'}},
+                                      {'elemental_data': {'$elemental': 'w'}, 'mode': 'effective'}]),
+    'integrate_elements': (('tet',), [{'nodal_data': {'$nodal': 'u'}}]),
+    'calculate_element_centroids': (ALL, [{}]),
+    'calculate_spatial_gradient_adjacency_matrices': (SOLID, [{}, {'mode': 'nodal'}, {'n_hop': 2}]),
+    'calculate_nodal_spatial_gradients': (SOLID, [{'nodal_data': {'$nodal': 'u'}}]),
+    'calculate_elemental_spatial_gradients': (SOLID, [{'elemental_data': {'$elemental': 'w'}}]),
+    'calculate_spatial_gradient_incidence_matrix': (SOLID, [{}]),
+    'integrate_node_attribute_over_surface': (SOLID, [{'attr_name': 'u'}]),
 }
 # argument values used for the model's [Query a; Query a'] witnesses
 ARG_VALUES = {
@@ -56,7 +65,8 @@ ARG_VALUES = {
     'update': [(False, True)],
 }
 RUNNABLE_WRITERS = ['write_fistr', 'write_ucd', 'write_obj', 'write_vtk']
-DERIVS = {'to_surface': SOLID, 'to_polyhedron': SOLID, 'to_facets': SOLID, 'to_first_order': ALL}
+DERIVS = {'to_surface': SOLID, 'to_polyhedron': SOLID, 'to_facets': SOLID, 'to_first_order': ALL,
+          'resolve_degeneracy': ('hex',)}
 
 
 # ------------------------------------------------------------------ meshes
@@ -205,7 +215,7 @@ def gen_history(rng, cat, modifiers, tier):
             hist.append({'op': 'derive', 'o': o, 'o2': next_o, 'd': d})
             child_kind = {'to_surface': 'tri' if base == 'tet' else 'quad',
                           'to_facets': 'tri' if base == 'tet' else 'quad',
-                          'to_polyhedron': base, 'to_first_order': base}[d]
+                          'to_polyhedron': base, 'to_first_order': base, 'resolve_degeneracy': base}[d]
             kinds[next_o] = child_kind + '>' + d
             next_o += 1
     return hist
@@ -231,7 +241,8 @@ def problems(hist, res):
     for rec in res['ops']:
         i = rec['i']
         if 'error' in rec:
-            out.append((i, 'harness', rec['error']))
+            out.append((i, 'harness', rec['error'] + ' @ ' + json.dumps({k: v for k, v in hist[i].items() if k != 'mesh'})
+                        + ' :: ' + rec.get('trace', '')[-400:] if hist else rec['error']))
             continue
         if rec['op'] == 'query' and 'equal' in rec:
             if not rec['equal']:
@@ -244,8 +255,11 @@ def problems(hist, res):
                     out.append((i, 'writer-mutates', rec['changed']))
             elif rec.get('effect_equal') is False:
                 out.append((i, 'modifier-differs', {'raised': rec.get('raised'), 'ref_raised': rec.get('ref_raised')}))
-        elif rec['op'] == 'derive' and rec.get('changed'):
-            out.append((i, 'derive-mutates', rec['changed']))
+        elif rec['op'] == 'derive':
+            if rec.get('equal') is False:
+                out.append((i, 'value', {'expected': rec.get('expected'), 'observed': rec.get('observed')}))
+            if rec.get('changed'):
+                out.append((i, 'derive-mutates', rec['changed']))
     return out
 
 
@@ -260,7 +274,26 @@ def kind_of_query(cfgq, q):
     return 'plain'
 
 
+def pins(cfgq):
+    """fingerprints of the memo inventory: a known finding about a modifier that does not
+    invalidate is pinned to the set of memoised methods it was triaged with, so that a newly
+    memoised method is never covered by it"""
+    memo = sorted((q, str(c['lru'])) for q, c in cfgq.items() if c['lru'] is not None)
+    slots = sorted((q, str(c['slot'])) for q, c in cfgq.items() if c['slot'] is not None)
+    return lib.sha(json.dumps(memo))[:12], lib.sha(json.dumps(slots))[:12]
+
+
 def signature_of(hist, cfgq):
+    sig = signature_of0(hist, cfgq)
+    memo_pin, slot_pin = pins(cfgq)
+    if sig['kind'] in ('stale-lru', 'stale-derive'):
+        sig['memo_inventory'] = memo_pin
+    if sig['kind'] in ('stale-slot', 'share'):
+        sig['slot_inventory'] = slot_pin
+    return sig
+
+
+def signature_of0(hist, cfgq):
     """signature of a (minimal) failing history: what shape of history breaks which query"""
     ops = [op for op in hist if op['op'] != 'new']
     names = []
@@ -278,7 +311,7 @@ def signature_of(hist, cfgq):
         q = last['q']
         qk = kind_of_query(cfgq, q)
         if len(ops) == 3 and ops[0]['op'] == 'query' and ops[0]['q'] == q and ops[1]['op'] == 'effect' \
-                and ops[0]['o'] == ops[1]['o'] == last['o']:
+                and ops[0]['o'] == ops[1]['o'] == last['o'] and ops[0]['kwargs'] == last['kwargs']:
             return {'kind': 'stale-' + qk, 'query': q, 'effect': ops[1]['e']}
         if len(ops) == 2 and ops[0]['op'] == 'effect' and ops[0]['o'] == last['o']:
             return {'kind': 'stale-' + qk, 'query': q, 'effect': ops[0]['e']}
@@ -295,12 +328,28 @@ def signature_of(hist, cfgq):
                 # the slot of q was filled by a nested call of another query
                 return {'kind': 'slot-key', 'query': q}
             return {'kind': 'query-after-query', 'query': q, 'first': ops[0]['q']}
+    if last['op'] == 'query' and len(ops) == 3 and ops[0]['op'] == 'derive' and ops[1]['op'] == 'effect':
+        d = ops[0]
+        return {'kind': 'shared-table-modified', 'deriv': d['d'], 'effect': ops[1]['e'],
+                'modified': 'child' if ops[1]['o'] == d['o2'] else 'parent',
+                'queried': 'child' if last['o'] == d['o2'] else 'parent'}
     if last['op'] == 'query' and len(ops) == 3 and sum(1 for x in ops if x['op'] == 'derive') == 1:
         d = [x for x in ops if x['op'] == 'derive'][0]
         return {'kind': 'share', 'deriv': d['d'], 'query': last['q'],
                 'on': 'child' if last['o'] == d['o2'] else 'parent'}
+    if last['op'] == 'derive':
+        if len(ops) == 3 and ops[0]['op'] == 'derive' and ops[0]['d'] == last['d'] and ops[1]['op'] == 'effect':
+            return {'kind': 'stale-derive', 'deriv': last['d'], 'effect': ops[1]['e']}
+        if len(ops) == 2 and ops[0]['op'] == 'effect':
+            return {'kind': 'stale-derive', 'deriv': last['d'], 'effect': ops[0]['e']}
+        if len(ops) == 2 and ops[0]['op'] == 'query':
+            return {'kind': 'derive-after-query', 'deriv': last['d'], 'first': ops[0]['q']}
     if last['op'] == 'effect' and not last['e'].startswith('write_') and len(ops) == 2:
         return {'kind': 'modifier-differs', 'effect': last['e'], 'after': names[0]}
+    if last['op'] == 'effect' and last['e'].startswith('write_') and len(ops) == 2 and ops[0]['op'] == 'derive':
+        d = ops[0]
+        return {'kind': 'shared-table-modified', 'deriv': d['d'], 'effect': last['e'],
+                'modified': 'child' if last['o'] == d['o2'] else 'parent', 'queried': 'snapshot'}
     if last['op'] == 'effect' and last['e'].startswith('write_') and len(ops) == 1:
         return {'kind': 'writer-mutates', 'effect': last['e'],
                 'mesh': 'timeseries' if 'timeseries' in hist[0]['mesh'].get('features', []) else 'plain'}
@@ -353,6 +402,13 @@ def candidates(hist, i):
             for h in earlier:
                 if h['op'] == 'query' and h['o'] == d['o2']:
                     out.append(pre + [d, h, op])
+    elif op['op'] == 'derive':
+        for h in earlier:
+            if h['op'] == 'effect' and h['o'] == o:
+                out.append(pre + [dict(op, o2=90), h, dict(op, o2=91)])
+                out.append(pre + [h, op])
+            if h['op'] == 'query' and h['o'] == o:
+                out.append(pre + [h, op])
     else:
         out.append(pre + [op])
         for h in earlier:
@@ -399,6 +455,7 @@ Definition fstr (f : failure) : string :=
   | FShare d => "share|" ++ d ++ "|"
   | FWriteRead w q => "write-read|" ++ w ++ "|" ++ q
   | FProtected w => "protected|" ++ w ++ "|"
+  | FShareTable d t e => "share-table|" ++ d ++ "|" ++ t ++ "/" ++ e
   | FStructure s => "structure|" ++ s ++ "|"
   end.
 '''
@@ -429,7 +486,8 @@ def coq_failures(ctx):
 
 def failure_term(f):
     ctor = {'stale-lru': 'FStaleLru', 'stale-slot': 'FStaleSlot', 'slot-key': 'FSlotKey',
-            'share': 'FShare', 'write-read': 'FWriteRead', 'protected': 'FProtected'}[f['kind']]
+            'share': 'FShare', 'write-read': 'FWriteRead', 'protected': 'FProtected',
+            'share-table': 'FShareTable'}[f['kind']]
     args = [lib.coq_str(f['a'])] + ([lib.coq_str(f['b'])] if f['kind'] not in ('share', 'protected') else [])
     return '(' + ctor + ' ' + ' '.join(args) + ')'
 
@@ -477,9 +535,11 @@ def witness_histories(ctx, fails, cat, cfgq, effects):
             if e in ('remove_useless_nodes',):
                 feat.add('unref')
             if e in ('make_elements_positive',) or (arg or '').startswith(('return_abs', 'raise_negative')):
-                feat.add('inverted')
                 if kind != 'tet':
+                    if e is not None:
+                        res.append(gen_mesh(rng, kind, feat))
                     continue
+                feat.add('inverted')
             res.append(gen_mesh(rng, kind, feat))
             res.append(gen_mesh(rng, kind, feat))
         return res[:4]
@@ -495,6 +555,10 @@ def witness_histories(ctx, fails, cat, cfgq, effects):
                         if b == 'assign_connectivity' else {}
                     h = [{'op': 'new', 'o': 0, 'mesh': m}, q_op(0, a, kw), e_op(0, b, args), q_op(0, a, kw)]
                     out.append((f, h))
+                    if pre_of.get(b) and (a in pre_of[b] or k == 'stale-slot'):
+                        # the modifier fills the slot itself through the queries it consults
+                        for kw2 in cat.get(a, (ALL, [{}]))[1]:
+                            out.append((f, [{'op': 'new', 'o': 0, 'mesh': m}, e_op(0, b, args), q_op(0, a, kw2)]))
                     if pre_of.get(b) and a in pre_of[b]:
                         # the modifier itself consults q: applying it twice / after a query
                         out.append((f, [{'op': 'new', 'o': 0, 'mesh': m}, e_op(0, b, args), e_op(0, b, args)]))
@@ -525,6 +589,21 @@ def witness_histories(ctx, fails, cat, cfgq, effects):
                                         {'op': 'derive', 'o': 0, 'o2': 1, 'd': a}, q_op(1, q, {})]))
                         out.append((f, [{'op': 'new', 'o': 0, 'mesh': m}, {'op': 'derive', 'o': 0, 'o2': 1, 'd': a},
                                         q_op(1, q, kw), q_op(0, q, {})]))
+        elif k == 'share-table':
+            table, eff = b.split('/')
+            if eff.startswith('write_') and eff not in RUNNABLE_WRITERS:
+                f['skipped'] = 'writer not runnable here (stl/tvtk/lxml absent)'
+                continue
+            for kind in DERIVS.get(a, SOLID)[:2]:
+                qs = [q for q in ('convert_nodal2elemental', 'calculate_frame_tensor_adjs',
+                                  'calculate_element_volumes', 'calculate_incidence_matrix',
+                                  'convert_elemental2nodal') if kind in cat[q][0]]
+                for q in qs:
+                    kw = cat[q][1][-1]
+                    m = gen_mesh(rng, kind, ['unref', 'timeseries'] if eff.startswith('write_') else ['unref'])
+                    d = {'op': 'derive', 'o': 0, 'o2': 1, 'd': a}
+                    out.append((f, [{'op': 'new', 'o': 0, 'mesh': m}, d, e_op(0, eff), q_op(1, q, kw)]))
+                    out.append((f, [{'op': 'new', 'o': 0, 'mesh': m}, d, e_op(1, eff), q_op(0, q, kw)]))
         elif k == 'write-read':
             for kind in cat.get(b, (ALL, []))[0][:1]:
                 if a in DERIVS:
@@ -675,7 +754,7 @@ def main(ctx):
             ctx.corr['disagreements'] += 1
             if tag == 'witness':
                 payload.setdefault('reproduced', []).append(kind)
-            if len(hist[:i + 1]) <= 4 or tag == 'witness':
+            if len([h for h in hist[:i + 1] if h['op'] != 'new']) <= 2 or tag == 'witness':
                 sig = signature_of(hist[:i + 1], cfgq)
                 if sig['kind'] != 'other':
                     key = json.dumps(sig, sort_keys=True)
@@ -711,6 +790,45 @@ def main(ctx):
             sig = signature_of(small, cfgq)
             key = json.dumps(sig, sort_keys=True)
             found.setdefault(key, (sig, small, detail, kind))
+
+    # ---- a failing query that is not memoised itself: attribute the failure to a memoised
+    #      query it calls, if the same history fails with that query in its place
+    def memo_deps(q, seen=None):
+        seen = set() if seen is None else seen
+        out = []
+        for d in (cfg or {}).get('calls', {}).get(q, []):
+            if d in seen:
+                continue
+            seen.add(d)
+            if kind_of_query(cfgq, d) in ('lru', 'slot'):
+                out.append(d)
+            out += memo_deps(d, seen)
+        return out
+    subst, owner = [], []
+    for key, (sig, hist, detail, kind) in sorted(found.items()):
+        last = hist[-1]
+        if last['op'] == 'derive' and kind == 'value':
+            for d in memo_deps(last['d'])[:6]:
+                for kw in cat.get(d, (ALL, [{}]))[1][:1]:
+                    subst.append([q_op(h['o'], d, kw) if h['op'] == 'derive' and h['d'] == last['d'] else h
+                                  for h in hist])
+                    owner.append(key)
+        if last['op'] == 'query' and kind == 'value' and kind_of_query(cfgq, last['q']) == 'plain':
+            for d in memo_deps(last['q'])[:6]:
+                for kw in cat.get(d, (ALL, [{}]))[1][:1]:
+                    subst.append([q_op(h['o'], d, kw) if h['op'] == 'query' and h['q'] == last['q'] else h
+                                  for h in hist])
+                    owner.append(key)
+    if subst:
+        sres = run_impl(ctx, subst, tag='subst')
+        for c, r, key in zip(subst, sres, owner):
+            if key in found and still_fails(r, 'value'):
+                sig2 = signature_of(c, cfgq)
+                if sig2['kind'] != 'other':
+                    sig, hist, detail, kind = found.pop(key)
+                    k2 = json.dumps(sig2, sort_keys=True)
+                    found.setdefault(k2, (sig2, c, {'seen_through': hist[-1].get('q') or hist[-1].get('d'), 'detail': detail}, kind))
+                    ctx.count('attributed-to-nested-memoised-query')
 
     # ---- violations
     n_viol = 0
